@@ -275,12 +275,20 @@ func (q c02Data) eval(s *c02Stream, _ time.Time) bool {
 
 // a THEN chain of payload filters: each element is searched in its direction's payload from where the
 // previous match ended; a match ending inside chunk i puts the other direction's position after chunk i
-type c02Then struct{ E []c02Data }
+// NegLast: the last element is negated ("a then -b": a is found and b is not found after it)
+type c02Then struct {
+	E       []c02Data
+	NegLast bool
+}
 
 func (q c02Then) str() string {
 	var parts []string
-	for _, e := range q.E {
-		parts = append(parts, e.str())
+	for i, e := range q.E {
+		if q.NegLast && i == len(q.E)-1 {
+			parts = append(parts, "-"+e.str())
+		} else {
+			parts = append(parts, e.str())
+		}
 	}
 	return "(" + strings.Join(parts, " then ") + ")"
 }
@@ -302,7 +310,7 @@ func (q c02Then) eval(s *c02Stream, _ time.Time) bool {
 	}
 	off := [2]int{0, 0}
 	vars := map[string]string{}
-	for _, e := range q.E {
+	for ei, e := range q.E {
 		d := 0
 		if e.Key == "sdata" {
 			d = 1
@@ -314,6 +322,9 @@ func (q c02Then) eval(s *c02Stream, _ time.Time) bool {
 		}
 		re := regexp.MustCompile(expr)
 		sm := re.FindStringSubmatchIndex(data[d][off[d]:])
+		if q.NegLast && ei == len(q.E)-1 {
+			return sm == nil
+		}
 		if sm == nil {
 			return false
 		}
@@ -461,6 +472,11 @@ func genAtom(rng *rand.Rand, withData bool) c02Q {
 			if rng.Intn(3) == 0 {
 				th.E = append(th.E, c02Data{[]string{"cdata", "sdata"}[rng.Intn(2)], res[rng.Intn(len(res))]})
 			}
+			return th
+		}
+		if len(th.E) >= 2 && rng.Intn(5) == 0 {
+			// the last element negated: the chain up to it is found, the last element is not found after it
+			th.NegLast = true
 			return th
 		}
 		if len(th.E) == 3 && rng.Intn(2) == 0 {
